@@ -18,7 +18,7 @@ TEXT = {
          BASE + "Rewrites whose correctness is a fact about NumPy kernels (slice through elemwise/transpose/reduction/overlap, fusion) are bounded only; record abstraction assumes the listed contracts of constructors and tokenize.", T),
  "C03": ("The chunk formulas are proved against the block plans from the real source (_slice_1d pieces, _compute_sliced_chunks sums); the materialisation barrier (_materialize) and the layout barrier (ChunksFreeze.lower_once) are proved on every control-flow path by record abstraction (advertised chunks or raise) and _chunks_match is proved to be equality of block sizes. Block shapes of whole graphs are a bounded stand-in over the catalogue.",
          BASE + "Record abstraction assumes contracts on optimiser calls (_lower, fuse, rechunk, RootAlias) and the naming invariant (C06); dtype and kernel-produced block sizes are bounded only.", T),
- "C04": ("_materialize pins the raw root name on every return path (proved by record abstraction, all inputs); _slice_1d keys are valid block numbers (proved). Closure, acyclicity and key grids of whole graphs, and key/name consistency across in-place operations, are bounded stand-ins over the catalogue.",
+ "C04": ("_materialize pins the raw root name on every return path (proved by record abstraction, all inputs); _slice_1d keys are valid block numbers, and the block coordinates blockwise / elemwise tasks refer to (_compute_block_id, _broadcast_block_id) lie inside the operand's grid (proved). Closure, acyclicity and key grids of whole graphs, and key/name consistency across in-place operations, are bounded stand-ins over the catalogue.",
          BASE + "Assumed contracts on optimiser calls; graph-level clauses bounded only.", T),
  "C10": ("Frame condition decided for all inputs by a static ownership analysis of every chunk-level kernel's real AST: each in-place write (element store, augmented assignment, any out=, in-place method, np.copyto) targets storage freshly allocated on every path that reaches it.",
          "Trusted: the aliasing/allocating catalogue of NumPy operations, declared frames/owned parameters/fresh callables (listed in evidence), purity => schedule independence (B3). Thread-level races inside NumPy or user functions are not decided.", TF),
@@ -34,12 +34,12 @@ TEXT = {
          BASE + "plan_rechunk, find_merge_rechunk, _bound_degree, merge_to_number and old_to_new/_intersect_1d are bounded only.", T),
  "C16": ("Uniform layouts (blockdims_from_blockshape, rank 1 and 2) and round_to are proved from the real source for all inputs. normalize_chunks over all specification kinds and the 'auto' byte bound are a bounded stand-in; F4 is a recorded known finding with the residual bound limit x tolerance enforced.",
          BASE + "auto_chunks uses x**(1/k) and medians: bounded only.", T),
- "C17": ("moved_fraction is proved in [0,1] and 0 for identical layouts from the real loops (with termination). common_blockdim (union of boundaries), pure splits, and unify_chunks_expr (one common layout, refine only splits, no growth beyond the limit, values) are bounded stand-ins over policies and limits.",
+ "C17": ("moved_fraction is proved in [0,1], 0 for identical layouts and 0 for pure splits from the real loops (with termination). The merging walk of common_blockdim is proved as a fragment for two and three non-trivial layouts: same total, positive blocks, every boundary of every input kept (the layout only splits). common_blockdim's prologue and unify_chunks_expr (one common layout, refine only splits, no growth beyond the limit, values) are bounded stand-ins over policies and limits.",
          BASE + "unify_chunks_expr's cost logic is bounded only.", T),
- "C18": ("Bounded stand-in: 16 reducers over axes, keepdims, split_every and layouts equal NumPy; the reduction tree reaches one block (depth bound incl. the float logarithm) for n up to 2000 (quick) / 200000 blocks.",
+ "C18": ("Bounded stand-in: 28 reducers (incl. central moments of order 3-5, ptp, count_nonzero, average, topk) over axes, keepdims, split_every and layouts equal NumPy; the reduction tree reaches one block (depth bound incl. the float logarithm) for n up to 2000 (quick) / 200000 blocks.",
          "Not proved. Numerical associativity of combine functions is a fact about NumPy kernels.", TB),
- "C19": ("ensure_minimum_chunksize is proved from the real loop for all inputs (total kept, every chunk >= size, or ValueError exactly when the axis is shorter). sliding_window_view alone and under reductions (windows larger than a block), overlap boundaries, diff, gradient and cumulative scans are bounded stand-ins against the NumPy definitions.",
-         BASE + "The banded-window block plans are bounded only.", T),
+ "C19": ("ensure_minimum_chunksize is proved from the real loop for all inputs (total kept, every chunk >= size, or ValueError exactly when the axis is shorter). The guard supports_native_sliding_window and the banded plan SlidingWindowReduction._block_plan are proved: under the guard, window t of block q is exactly the block's suffix from t, the whole middle blocks and the first band_offset+t+1 elements of the band blocks b..e. sliding_window_view alone and under reductions (windows larger than a block), overlap boundaries, diff, gradient and cumulative scans are bounded stand-ins against the NumPy definitions.",
+         BASE + "The NumPy kernels fed by the plans, the moving-window plan, overlap and scans are bounded only.", T),
  "C20": ("The layout barrier ChunksFreeze.lower_once is proved on every path (frozen layout or raise) by record abstraction and _chunks_match is proved to be equality of block sizes; the block_info / block_id payload of map_blocks is a bounded stand-in over the catalogue including layout-drifting inputs.",
          BASE + "Assumed contracts on lower_once/rechunk/cache; payload arithmetic bounded only.", T),
  "C24": ("Region composition (_compose_slices, all steps), sliced chunk sizes (_compute_sliced_chunks) and the slice-into-source rewrite (FromArray._accept_slice: the new region keeps unit steps - what the offset reads of _layer require -, equals the composition, chunks add up) are proved from the real source for all inputs; that every request to a recording source is an in-bounds basic slice returning NumPy's elements is a bounded stand-in, also with the NumPy eager-slice limit set to 0.",
@@ -48,7 +48,7 @@ TEXT = {
          BASE + "load_store_chunk's single write site is covered by the C10 frame analysis; npy-stack round trip and locks are not covered.", T),
  "C26": ("Decided for all import orders by a static import-effect analysis over every dask_array module: nothing executed at import time can reach xarray registration; register() is the only caller of _ensure_registered; no entry point.",
          "Trusted: Python's import semantics as modelled (module top levels, class bodies, decorators, defaults). The 'same values' clause and xarray's own plugin discovery are not decided.", TF),
- "C27": ("moved_fraction's range is proved from the real loops. _rechunk_stage_transfer and every node's transfer_bytes (raw, optimised and materialised expressions of the catalogue) are bounded stand-ins.",
+ "C27": ("moved_fraction's range, its zero on identical layouts and on pure splits, and _rechunk_stage_transfer (one and two axes, known sizes: 0 <= min <= max, never NaN) are proved from the real loops. 'Same chunks move nothing' and every node's transfer_bytes (raw, optimised and materialised expressions of the catalogue) are bounded stand-ins.",
          BASE + "The transfer_bytes overrides are bounded only.", T),
  "C28": ("Bounded stand-in for the main statement: compute_chunk_sizes gives the true block sizes over the catalogue and boolean-mask selections, and every operation on an unknown-size array either refuses or equals NumPy (F9 is a recorded known finding). Proved in addition: the index helpers leave indices untouched on NaN axes (normalize_slice / posify_index / check_index).",
          "Mostly bounded; the proved part is small.", TB),
@@ -80,7 +80,7 @@ for pid in sorted(TEXT):
 m["checks"] = checks
 m["not_applicable"] = [{"property_id": p, "reason": r} for p, r in NA.items()]
 m["engines"][0]["serves_properties"] = sorted(TEXT)
-m["notes"] = ("No hooks in /repo; six unguarded fix: commits (see DESIGN.md 8.3 and known_findings.jsonl). "
+m["notes"] = ("No hooks in /repo; ten unguarded fix: commits (see DESIGN.md 8.3 and known_findings.jsonl). "
               "exit codes: 0 held, 1 violation, 2 undecided, 3 checker failure.")
 json.dump(m, open("/verif/MANIFEST.json", "w"), indent=1)
 print(len(checks), "checks;", len(m["not_applicable"]), "not applicable")
